@@ -381,6 +381,9 @@ def fresh_child_scopes(ctx, rid, core, cg, doc=None):
                      "environment argument provenance: %s" % [r[:2] for r in roots], fn.loc(b))
     fc = M.Fn(core.mir_fn("blots_core::functions::FunctionDef::call"), "FunctionDef::call")
     for b in fc.calls_to(EVAL):
-        roots = fc.trace(fc.term(b)["args"][2])
+        roots = M.follow_returns(cg, fc.trace(fc.term(b)["args"][2]), keep=lambda c_: c_.startswith(ENV))
         ok = bool(roots) and all(r[0] == "call" and r[1] == ENV + "extend_with" for r in roots)
+        # positively wrong: the body runs in the caller's environment itself, or in one made without a layer for the call's locals
+        if not ok:
+            ok = False if any(r[0] == "param" or (r[0] == "call" and r[1] in (ENV + "new", ENV + "extend", ENV + "extend_shared")) for r in roots) else None
         ctx.inst(rid, "FunctionDef::call->evaluate_ast", ok, "body environment provenance: %s" % [r[:2] for r in roots], fc.loc(b))
